@@ -303,11 +303,87 @@ def run(ctx, anchors=None):
                 nret += 1
     ctx.ok("R17.5", "failing-exits-set-error", ext.loc(), "%d failing exits of StepExtended all go through set_error" % nret)
     ctx.floor("R17.5", nret, 8, "failing exits in StepExtended")
+    # ---- R17.6 the arithmetic opcodes compute on *decoded* script numbers. Script numbers are sign-magnitude (the top bit of the
+    # last byte is the sign): no function of the operand's bytes can be the signed-integer function its name denotes unless the
+    # bytes are decoded (CScriptNum, the repository's only decoder) or the code itself inspects that bit. Decided per opcode on
+    # the G-SYM term of the value the successful path pushes: every occurrence of an operand (an element of env.stack) in it
+    # must be the byte-vector argument of a CScriptNum construction.
+    ctx.rule("R17.6", "2MUL, 2DIV, MUL, DIV, MOD push a value computed from CScriptNum-decoded operands (or sign-bit aware byte code)")
+    from .. import symx
+    ev_ = fb.enum("opcodetype")
+    vals = {}
+    for c in ev_["consts"]:
+        vals[c.get("name", c.get("n"))] = c.get("value", c.get("v"))
+    for sn in ("OP_2MUL", "OP_2DIV", "OP_MUL", "OP_DIV", "OP_MOD"):
+        if sn not in {x.split("::")[-1] for x in handled}:
+            continue
+        k = vals.get(sn)
+        if k is None:
+            raise AnalysisBroken("R17.6: value of %s not found" % sn)
+
+        def assume(term, conds, k=k):
+            if isinstance(term, tuple) and term[0] == "eq":
+                for a, b in ((term[1], term[2]), (term[2], term[1])):
+                    if symx.is_const(b) and isinstance(a, tuple) and a[0] == "f" and a[2] == "opcode":
+                        return b[1] == k
+            return None
+        X = symx.Explorer(prog, assume=assume, inline=lambda fn, n: fn.file == ext.file and fn.rec is None, transparent=lambda n: n.get("mrec") != "CScriptNum")
+        try:
+            outs = X.explore(ext, params={ext.params[0]["n"]: ("a", "env")})
+        except symx.Unsupported as e:
+            raise AnalysisBroken("R17.6: %s: %s" % (sn, e))
+        succ = [o for o in outs if o.ret == symx.C(1)]
+        if not succ:
+            raise AnalysisBroken("R17.6: no successful path of StepExtended for %s" % sn)
+        ctx.site(len(succ))
+
+        def is_stack(t):
+            return any(isinstance(y, tuple) and y[0] == "f" and y[2] == "stack" for y in symx.subterms(t))
+
+        def is_operand(t):
+            return isinstance(t, tuple) and t[0] == "ap" and t[1] in ("m:at", "[]", "m:back") and len(t) >= 3 and is_stack(t[2])
+
+        def occurrences(t, parent=None, pos=0, acc=None):
+            acc = [] if acc is None else acc
+            if is_operand(t):
+                acc.append((parent, pos))
+                return acc
+            if isinstance(t, tuple):
+                for i, y in enumerate(t):
+                    occurrences(y, t, i, acc)
+            return acc
+        bad = None
+        ndec = 0
+        for o in succ:
+            pushed = [e.terms[1] for e in o.events if e.kind == "mcall" and e.name in ("push_back", "emplace_back") and len(e.terms) == 2 and is_stack(e.terms[0])]
+            if not pushed:
+                raise AnalysisBroken("R17.6: the successful path of %s pushes nothing recognisable" % sn)
+            occ = occurrences(pushed[-1])
+            raw = [(par, pos) for (par, pos) in occ if not (isinstance(par, tuple) and par[0] == "ap" and par[1] == "ctor:CScriptNum" and pos == 2)]
+            ndec += len(occ) - len(raw)
+            sign_aware = any(isinstance(y, tuple) and y[0] == "ap" and y[1] == "&" and symx.C(0x80) in y[2:] for (t, v) in o.conds for y in symx.subterms(t)) or \
+                any(isinstance(y, tuple) and y[0] == "ap" and y[1] == "&" and symx.C(0x80) in y[2:] for e in o.events for t in e.terms for y in symx.subterms(t))
+            if raw and not sign_aware:
+                bad = symx.show(pushed[-1])[:120]
+            if not occ:
+                raise AnalysisBroken("R17.6: the value %s pushes (%s) does not mention its operand" % (sn, symx.show(pushed[-1])[:80]))
+        ctx.inst(bad is None, "R17.6", "decoded-operands:" + sn, ext.loc(),
+                 "%s pushes a value computed from CScriptNum-decoded operands (%d decoded occurrence(s))" % (sn, ndec),
+                 "%s pushes %s: the operand's bytes reach the result without being decoded as a script number and without any test of the sign bit - "
+                 "for a sign-magnitude encoding that cannot be the signed-integer function (e.g. -1 is 0x81; shifting its bytes gives 0x0201 = 258, not -2)" % (sn, bad))
     ctx.extra["gate_labels"] = sorted(x.split("::")[-1] for x in gate_labels)
     ctx.extra["handled_labels"] = sorted(x.split("::")[-1] for x in handled)
 
 
 MUTANTS = [
+    dict(name="2mul-on-raw-bytes", file="debugger/interpreter.cpp", find="            CScriptNum num(vch1, env.fRequireMinimal, 5);\n            num = num * CScriptNum(2);\n            vch1 = num.getvch();\n",
+         replace="            uint16_t carry = 0;\n            for (size_t i = 0; i < vch1.size(); ++i) { uint16_t v = vch1[i]; v = (v << 1) | carry; carry = v >> 8; vch1[i] = v & 0xff; }\n            if (carry) vch1.push_back(carry);\n",
+         expect=["R17.6:decoded-operands:OP_2MUL"]),
+    dict(name="2div-on-raw-bytes", file="debugger/interpreter.cpp", find="            CScriptNum num(vch1, env.fRequireMinimal, 5);\n            num = num / CScriptNum(2);\n            vch1 = num.getvch();\n",
+         replace="            uint8_t carry = 0;\n            for (size_t i = vch1.size(); i-- > 0; ) { uint8_t v = vch1[i]; vch1[i] = (v >> 1) | (carry << 7); carry = v & 1; }\n",
+         expect=["R17.6:decoded-operands:OP_2DIV"]),
+    dict(name="mod-of-raw-operand", file="debugger/interpreter.cpp", find="            vch1 = num1.getvch();\n        }\n        popstack(stack);\n        popstack(stack);", replace="            vch1 = num1.getvch();\n            if (env.opcode == OP_MOD && vch2.size() > vch1.size()) vch1 = stacktop(-2);\n        }\n        popstack(stack);\n        popstack(stack);",
+         expect=["R17.6:decoded-operands:OP_MOD"]),
     dict(name="remove-2DIV-handler", file="debugger/interpreter.cpp", regex=True,
          find=r"    case OP_2DIV:\n.*?return true;\n\n    case OP_MUL:", replace="    case OP_MUL:", expect=["R17.1:opcode=OP_2DIV"]),
     dict(name="remove-XOR-arm", file="debugger/interpreter.cpp",
